@@ -820,6 +820,30 @@ func (g *Gen) isCellAlloc(a *ssa.Alloc) bool {
 				if !ok(x) {
 					return false
 				}
+			case *ssa.Call:
+				// &local passed to a callee that is used through its contract: copy-in / copy-out
+				if v != ssa.Value(a) {
+					return false
+				}
+				f, isFn := x.Call.Value.(*ssa.Function)
+				if !isFn || x.Call.IsInvoke() {
+					return false
+				}
+				fc := g.E.contracts.Funcs[funcKey(f)]
+				if fc == nil || fc.Opts["inline"] == "true" {
+					return false
+				}
+			case *ssa.Select:
+				// &local sent on a channel: the receiver gets a copy of the value as of the send
+				// (sequential semantics; later writes by the receiver are not seen here)
+				if v != ssa.Value(a) {
+					return false
+				}
+				for _, st := range x.States {
+					if st.Chan == v {
+						return false
+					}
+				}
 			default:
 				return false
 			}
@@ -1083,7 +1107,38 @@ func (g *Gen) selectInstr(x *ssa.Select) Val {
 		lo = 0
 	}
 	if g.mode == ModeInt {
-		g.assume(fmt.Sprintf("(and (<= %d %s) (< %s %d))", lo, v.Tuple[0].S, v.Tuple[0].S, len(x.States)))
+		g.assume(fmt.Sprintf("(and (<= %s %s) (< %s %d))", bigStr(big.NewInt(int64(lo))), v.Tuple[0].S, v.Tuple[0].S, len(x.States)))
+		// ghost queue of a channel (declared as ghost fields qlen/qitem): a chosen send case appends
+		ql, okL := g.E.contracts.Ghosts["qlen"]
+		qi, okI := g.E.contracts.Ghosts["qitem"]
+		if okL && okI {
+			hl, _, _, _ := g.ghostHeap(ql)
+			hi, _, _, _ := g.ghostHeap(qi)
+			for i, st := range x.States {
+				if st.Dir != types.SendOnly {
+					continue
+				}
+				ch, pay := g.val(st.Chan), g.val(st.Send)
+				if pay.Addr != nil && pay.Addr.Kind == "cell" && len(pay.Addr.Path) == 0 {
+					if _, isStruct := pay.Addr.ElemT.Underlying().(*types.Struct); isStruct {
+						// materialise the local struct as a heap object for the receiver
+						r := g.allocRef(g.cur)
+						g.storeStruct(g.cur, pay.Addr.ElemT, r, g.heapGet(g.cur, pay.Addr.Heap))
+						pay = Val{T: pay.T, S: r}
+					}
+				}
+				if ch.Addr != nil {
+					continue
+				}
+				cond := fmt.Sprintf("(= %s %d)", v.Tuple[0].S, i)
+				curL, curI := g.heapGet(g.cur, hl), g.heapGet(g.cur, hi)
+				n := g.define("qn", "Int", fmt.Sprintf("(select %s %s)", curL, ch.S))
+				g.heapSet(g.cur, hl, fmt.Sprintf("(ite %s (store %s %s (+ %s 1)) %s)", cond, curL, ch.S, n, curL))
+				if pay.Addr == nil && g.sortOf(pay.T) == "Int" {
+					g.heapSet(g.cur, hi, fmt.Sprintf("(ite %s (store %s %s (store (select %s %s) %s %s)) %s)", cond, curI, ch.S, curI, ch.S, n, pay.S, curI))
+				}
+			}
+		}
 	}
 	return v
 }
